@@ -79,10 +79,38 @@ def cf_conds(t, acc=None):
     return acc
 
 
+_NEG = {"is": "is not", "is not": "is", "==": "!=", "!=": "==", "in": "not in", "not in": "in", "<": ">=", ">=": "<", ">": "<=", "<=": ">"}
+
+
+def positive(c):
+    """(canonical condition, flipped?): `x is not None`, `not (x is None)`, `x != y`, `a not in b` are the negations of their positive
+    forms, so one truth assignment decides both spellings."""
+    flip = False
+    while True:
+        if c[0] == "unop" and c[1] == "not":
+            c, flip = c[2], not flip
+        elif c[0] == "cmp" and c[1] in ("is not", "!=", "not in", ">=", "<="):
+            c, flip = ("cmp", _NEG[c[1]], c[2], c[3]), not flip
+        else:
+            return c, flip
+
+
+def decided(asg, c):
+    """Truth value of condition c under asg (looking through negated spellings), or None."""
+    if c in asg:
+        return asg[c]
+    pc, flip = positive(c)
+    for k, v in asg.items():
+        pk, fk = positive(k)
+        if pk == pc:
+            return bool(v) ^ fk ^ flip
+    return None
+
+
 def resolve(t, asg):
     """Eliminate spine ifexps under a {cond_term: bool} assignment."""
-    while isinstance(t, tuple) and t and t[0] == "ifexp" and t[1] in asg:
-        t = t[2] if asg[t[1]] else t[3]
+    while isinstance(t, tuple) and t and t[0] == "ifexp" and decided(asg, t[1]) is not None:
+        t = t[2] if decided(asg, t[1]) else t[3]
     return t
 
 
@@ -92,8 +120,10 @@ def resolve_deep(t, asg):
         return t
 
     def f(x):
-        if x[0] == "ifexp" and x[1] in asg:
-            return x[2] if asg[x[1]] else x[3]
+        if x[0] == "ifexp":
+            d = decided(asg, x[1])
+            if d is not None:
+                return x[2] if d else x[3]
         return None
     return subst(t, f)
 
@@ -110,8 +140,9 @@ def _spine_cases(t):
     def rec(t, asg):
         if isinstance(t, tuple) and t and t[0] == "ifexp":
             c = t[1]
-            if c in asg:
-                rec(t[2] if asg[c] else t[3], asg)
+            d = decided(asg, c)
+            if d is not None:
+                rec(t[2] if d else t[3], asg)
             else:
                 rec(t[2], {**asg, c: True})
                 rec(t[3], {**asg, c: False})
@@ -176,8 +207,13 @@ def all_cases(t, limit=5):
     """[(assignment, resolved term)] over every ifexp condition occurring anywhere in t."""
     import itertools
     conds = []
+    seen_pos = []
     for x in subterms(t):
         if x[0] == "ifexp" and x[1] not in conds:
+            pc = positive(x[1])[0]
+            if pc in seen_pos:
+                continue   # a negated spelling of a condition already enumerated
+            seen_pos.append(pc)
             conds.append(x[1])
     if len(conds) > limit:
         raise AnalysisError("too many conditions")
